@@ -248,7 +248,7 @@ CHECKS = {
               "serial leg: the program runs on keyvalue.FS over the REAL in-memory store (verif hook) under a cooperative scheduler whose yield points sit before every store transaction and before every blob operation made outside a transaction; 12 rapid-drawn schedules per program; "
               "the outcome (every operation's result + final tree) must be among the outcomes of all program-order-respecting sequential orders (<=1680, computed on fresh mem.FS instances). dfs leg: per program EVERY schedule with <=2 pre-emptions. independence leg: threads confined to disjoint subtrees, "
               "every <=2-pre-emption schedule must give exactly the solo results and the union tree. free leg: the same programs on real goroutines, 20 repetitions (under the race detector in the thorough tier): no panic, no deadlock, no race report. "
-              "Programs containing a cross-thread pair of operations on the same path or on a path and its ancestor, of which at least one mutates, are excluded by construction from the serializability legs while the known findings C15:ns:same / C15:ns:parent-child reproduce (the exhaustive pair enumeration finds 50 failing operation-pair classes there and none among siblings or unrelated paths). observers leg: thread 0 issues ONE mutating operation (mkdir, mkdirall, create, exclusive create, remove, rename, chmod, open with O_CREATE / O_TRUNC, over {a, b, a/b, a/c, b/c, b/c/d} and six set-ups), 1..2 other threads only observe (1..3 of stat, readdir, cat over {., a, b, a/b, a/c}); EVERY schedule with <=2 pre-emptions; since observers change nothing, a non-sequential outcome is an intermediate state of the one operation (or a torn listing) made visible, identified by operation, what its paths hold in the set-up state, and whether a listing observes. "
+              "Known findings are listed per CLASS = (operation kinds of a cross-thread pair, strongest path relation same / parent-child / siblings), 60 classes, each with a recorded witness program + schedule that its regression probe replays (harness/c15/witnesses.json): found by complete enumeration of all (1 operation || 1 operation) and (1 operation || 2 operations) programs over 5 set-ups under every <=2-pre-emption schedule (446k programs, 9.5M schedules). The serializability legs construct programs none of whose cross-thread pairs falls in a listed class (every next operation is drawn from the compatible candidates); the other ~100 same-path / ancestor classes and all sibling classes are searched. observers leg: thread 0 issues ONE mutating operation (mkdir, mkdirall, create, exclusive create, remove, rename, chmod, open with O_CREATE / O_TRUNC, over {a, b, a/b, a/c, b/c, b/c/d} and six set-ups), 1..2 other threads only observe (1..3 of stat, readdir, cat over {., a, b, a/b, a/c}); EVERY schedule with <=2 pre-emptions; since observers change nothing, a non-sequential outcome is an intermediate state of the one operation (or a torn listing) made visible, identified by operation, what its paths hold in the set-up state, and whether a listing observes. "
               "non-trivial = the program has a cross-thread pair on related paths (incl. siblings) of which one mutates; every independence/free case; observers: the mutator's path exists or it creates"),
         assumptions=["interleavings are explored at store-transaction and blob-operation granularity (the in-memory store serialises whole transactions under its mutex, so these are the distinguishable ones)", "the race detector leg depends on the runtime's scheduling (sampled)"],
         legs=[
